@@ -29,6 +29,13 @@ remarks={
  'r4_C06_m1':"missed at first (no concurrent Flush in H06GC, no disk read at the end); Flush kind, all-keys-pending option and reopen added",
  'r4_C10_m2':"missed at first (double remapping is idempotent for the chunk layouts of the concrete limits); crash run with symbolic primary limit added",
  'r4_C13_m1':"missed at first: the interleaving is inside a segment the scheduler treats as atomic, valid only for race-free code; H13Conc now runs under the race monitor, which reports the race (C16 reports it too)",
+ 'r5_C01_m1':"missed at first (free histories of 2 operations do not read a rolled-over record list back from disk); H01Seq gained a scripted prefix",
+ 'r5_C07_m2':"missed by C07 at first (same change as C06_m2); K-PGC added to C07",
+ 'r5_C09_m1':"missed at first (keys never fell into the last bucket of the table); edge-bucket option added",
+ 'r5_C11_m2':"missed at first (a pure space leak: a relocated copy the index declined is never released); no-orphan clause added to the independent format reader",
+ 'r5_C16_m1':"missed at first (needs SyncOnFlush and a writer that flushes itself next to another Flush); SyncOnFlush runs and a fixed-pair run with two preemptions added",
+ 'r5_C16_m2':"missed at first (no state with several index files and pending work; GC always ran with its unused-file scan, which skips the record-level pass); prefix 9 and scan-free choice added",
+ 'r5_C17_m2':"missed at first (no failing Close); H17 scenario 3 added",
  'C12_m2':"discarded (section 12)",
  'C04_m2':"superseded by fix a8f3406 (section 12)",
 }
